@@ -39,7 +39,8 @@ RULE = ("kinds: cmp (pair a,b with relation copy | vary one field | other descri
 TRUSTED = ["CPython ==/hash on builtin values and the tuple/frozenset hash combiners (HashLaws, Combine: hypotheses)",
            "field-type _pack() methods (packed values are read off the real objects)",
            "hashlib.sha256 (the identifier digest; theorems hold for every digest)"]
-ASSUMPTIONS = ["no in-place mutation of the IGNORE_FIELDS_FOR_COMPARISON set object (the API re-binds the global)"]
+ASSUMPTIONS = ["callers change the configuration through the API only (set_ignored_fields_for_comparison / the context "
+               "manager) - possibly with an iterable derived from the active configuration itself"]
 EXPLANATION = "seeded samples; the ignored-field sets per pair enumerate every subset of the first three slot names for a share of the pairs"
 
 TYPES = [t for t in V.SERIALISABLE]
@@ -132,6 +133,9 @@ def gen_cases(rng, tier):
     cases.append(_cmp(dl, _reorder(dl), [], "copy"))          # equal dicts built in another key order
     cases.append(_cmp(dl, _reorder(dl), ["s"], "copy"))
     cases.append(_cmp(["grouped", "g/d", [dl, cmd]], ["grouped", "g/d", [_reorder(dl), cmd]], [], "grouped-copy"))
+    # the copy is rebuilt after the library's cache of generated record classes (lru_cache, 4096 entries) has turned
+    # over: same descriptor, same values, but a freshly generated class
+    cases.append(dict(_cmp(cmd, cmd, [], "copy"), evict=4200))
     nanr = ["rec", ["t/f", [["float", "f"]]], [["float", "7ff8000000000000"]], M]
     cases.append(_cmp(nanr, nanr, [], "copy"))
     # --- random pairs
@@ -185,11 +189,17 @@ def gen_cases(rng, tier):
             if w < 3:
                 out.append(["observe"])
             elif w < 5:
-                out.append(["set", s])
+                ww = r.below(10)
+                if ww < 6:
+                    out.append(["set", s])
+                elif ww < 9:
+                    out.append(["extend", s])      # set(chain(<the active configuration>, names)): extend what is in force
+                else:
+                    out.append(["reapply"])        # set(<the active configuration itself>)
             elif w < 6 and depth > 0:
                 out.append(["raise"])
             elif depth < 3:
-                out.append(["scope", s, prog(depth + 1)])
+                out.append([r.choice(["scope", "scope", "scope_extend"]), s, prog(depth + 1)])
             else:
                 out.append(["observe"])
         return out
@@ -291,6 +301,11 @@ def run_real(case):
     try:
         if k == "cmp":
             a = V.build(case["a"])
+            if case.get("evict"):
+                from flow.record import RecordDescriptor
+                for i in range(case["evict"]):
+                    RecordDescriptor("evict/t%d" % i, [("string", "f%d" % (i % 7))])
+                V._desc_cache.clear() if hasattr(V, "_desc_cache") else None
             b = V.build(case["b"])        # independently rebuilt even when the spec is the same
             B.set_ignored_fields_for_comparison(list(case["ig"]))
             obs = {
@@ -328,6 +343,15 @@ def run_real(case):
                 for c in cmds:
                     if c[0] == "set":
                         B.set_ignored_fields_for_comparison(list(c[1]))
+                    elif c[0] == "extend":
+                        import itertools
+                        B.set_ignored_fields_for_comparison(itertools.chain(B.IGNORE_FIELDS_FOR_COMPARISON, list(c[1])))
+                    elif c[0] == "reapply":
+                        B.set_ignored_fields_for_comparison(B.IGNORE_FIELDS_FOR_COMPARISON)
+                    elif c[0] == "scope_extend":
+                        import itertools
+                        with B.ignore_fields_for_comparison(itertools.chain(B.IGNORE_FIELDS_FOR_COMPARISON, list(c[1]))):
+                            run(c[2])
                     elif c[0] == "observe":
                         trace.append(_behavioural_ignored())
                     elif c[0] == "raise":
@@ -407,13 +431,17 @@ def oracle(case, obs):
             for c in cmds:
                 if c[0] == "set":
                     state["g"] = sorted(c[1])
+                elif c[0] == "extend":
+                    state["g"] = sorted(set(state["g"]) | set(c[1]))
+                elif c[0] == "reapply":
+                    pass
                 elif c[0] == "observe":
                     want.append(state["g"])
                 elif c[0] == "raise":
                     raise _Boom()
                 else:
                     before = state["g"]
-                    state["g"] = sorted(c[1])
+                    state["g"] = sorted(c[1]) if c[0] == "scope" else sorted(set(state["g"]) | set(c[1]))
                     try:
                         run(c[2])
                     finally:
@@ -488,11 +516,26 @@ def oracle(case, obs):
 def model_op(case, obs):
     k = case["kind"]
     if k == "scope":
+        # extend / reapply / scope_extend are rewritten to explicit sets (commands after a `raise` are dead code, so
+        # tracking the configuration as if nothing was raised names the same sets for everything that executes)
+        st = {"g": sorted(case["glob"])}
+
         def conv(c):
-            if c[0] in ("set",):
-                return ["set", [enc_str(x) for x in c[1]]]
-            if c[0] == "scope":
-                return ["scope", [enc_str(x) for x in c[1]], [conv(x) for x in c[2]]]
+            if c[0] == "set":
+                st["g"] = sorted(c[1])
+                return ["set", [enc_str(x) for x in st["g"]]]
+            if c[0] == "extend":
+                st["g"] = sorted(set(st["g"]) | set(c[1]))
+                return ["set", [enc_str(x) for x in st["g"]]]
+            if c[0] == "reapply":
+                return ["set", [enc_str(x) for x in st["g"]]]
+            if c[0] in ("scope", "scope_extend"):
+                before = st["g"]
+                st["g"] = sorted(c[1]) if c[0] == "scope" else sorted(set(st["g"]) | set(c[1]))
+                names = [enc_str(x) for x in st["g"]]
+                body = [conv(x) for x in c[2]]
+                st["g"] = before
+                return ["scope", names, body]
             return [c[0]]
         return {"op": "c12_scope", "glob": [enc_str(x) for x in case["glob"]], "prog": [conv(c) for c in case["prog"]]}
     if case["rel"] == "nonrecord" or "tree_a" not in obs:
